@@ -84,16 +84,37 @@ var senFirst = -1
 // array element, object value, object key) through sen.Writer and back
 // through sen.Parser: the same string comes back (invalid UTF-8 replaced
 // by U+FFFD as documented).
+// multi-byte templates ('?' = free byte): 2, 3 and 4 byte UTF-8 sequences
+// with a free continuation byte, alone and between ASCII letters
+var c10Templates = [...]string{"a\xE2\x80?b", "\xE2\x80?", "\xC2?", "\xEF\xBF?", "\xF0\x9F\x98?", "x\xE2?\xA9", "\xE2\x80\xA8?"}
+
 func VerifC10_String() {
 	ctx := vx.Choose("ctx", 4)
-	n := vx.Choose("len", vx.Param("N", 3)+1)
+	nmax := vx.Param("N", 3)
+	k := vx.Choose("len", nmax+1+len(c10Templates))
 	html := vx.Choose("htmlunsafe", 2) == 1
-	s := vx.String("s", n)
+	var s string
+	n := k
+	if k <= nmax {
+		s = vx.String("s", k)
+	} else {
+		tmpl := c10Templates[k-nmax-1]
+		b := make([]byte, len(tmpl))
+		for i := 0; i < len(tmpl); i++ {
+			if tmpl[i] == '?' {
+				b[i] = vx.Byte("s")
+			} else {
+				b[i] = tmpl[i]
+			}
+		}
+		s = string(b)
+		n = 100 + k - nmax - 1 // template number in the signature
+	}
 	vx.Key("ctx", senCtxNames[ctx])
 	vx.Key("len", n)
 	wr := &sen.Writer{Options: ojg.Options{HTMLUnsafe: html}}
 	senFirst = -1
-	if n > 0 {
+	if len(s) > 0 {
 		senFirst = int(s[0])
 	}
 	senRoundTrip(senCtx(ctx, s), wr)
